@@ -56,28 +56,31 @@ class FailingClassifier(ClassifierMixin, BaseEstimator):
 
 
 LEARNERS = {
-    "skr_fail": ("reg", lambda: SklearnRegressor(FailingRegressor(), random_state=0)),
-    "skn_fail": ("preg", lambda: SklearnNormalRegressor(FailingRegressor(), random_state=0)),
-    "skc_fail": ("clf_proba", lambda: SklearnClassifier(FailingClassifier(), classes=[0, 1, 2], random_state=0)),
-    "sk_nb": ("clf", lambda: SklearnClassifier(GaussianNB(var_smoothing=1e-3), classes=[0, 1, 2], random_state=0)),
-    "sk_lr": ("clf", lambda: SklearnClassifier(LogisticRegression(max_iter=300), classes=[0, 1, 2], random_state=0)),
-    "sk_tree": ("clf", lambda: SklearnClassifier(DecisionTreeClassifier(random_state=0), classes=[0, 1, 2], random_state=0)),
-    "sk_knn": ("clf", lambda: SklearnClassifier(KNeighborsClassifier(n_neighbors=1), classes=[0, 1, 2], random_state=0)),
-    "sk_sgd_warm": ("clf", lambda: SklearnClassifier(SGDClassifier(loss="log_loss", warm_start=True, max_iter=30, tol=None, random_state=0),
-                                                    classes=[0, 1, 2], random_state=0)),
-    "sk_rf_warm": ("clf", lambda: SklearnClassifier(RandomForestClassifier(n_estimators=3, warm_start=True, random_state=0),
-                                                   classes=[0, 1, 2], random_state=0)),
-    "sk_mlp_warm": ("clf", lambda: SklearnClassifier(MLPClassifier(hidden_layer_sizes=(4,), warm_start=True, max_iter=40, random_state=0),
-                                                    classes=[0, 1, 2], random_state=0)),
-    "pwc": ("clf", lambda: ParzenWindowClassifier(metric_dict={"gamma": 0.7}, classes=[0, 1, 2], random_state=0)),
-    "pwc_prior": ("clf", lambda: ParzenWindowClassifier(metric_dict={"gamma": 0.2}, class_prior=[1, 2, 0.5], classes=[0, 1, 2], random_state=0)),
-    "skr_lin": ("reg", lambda: SklearnRegressor(LinearRegression(), random_state=0)),
-    "skr_tree": ("reg", lambda: SklearnRegressor(DecisionTreeRegressor(random_state=0), random_state=0)),
-    "skn_br": ("preg", lambda: SklearnNormalRegressor(BayesianRidge(), random_state=0)),
-    "skn_gp": ("preg", lambda: SklearnNormalRegressor(GaussianProcessRegressor(alpha=1e-3, random_state=0), random_state=0)),
-    "nic": ("preg", lambda: NICKernelRegressor(metric_dict={"gamma": 0.5}, random_state=0)),
-    "nw": ("preg", lambda: NadarayaWatsonRegressor(metric_dict={"gamma": 0.5}, random_state=0)),
-    "annot_lr": ("multi", lambda: AnnotatorLogisticRegression(classes=[0, 1, 2], max_iter=40, random_state=0)),
+    "skr_fail": ("reg", lambda ml=np.nan: SklearnRegressor(FailingRegressor(), random_state=0, missing_label=ml)),
+    "skn_fail": ("preg", lambda ml=np.nan: SklearnNormalRegressor(FailingRegressor(), random_state=0, missing_label=ml)),
+    "skc_fail": ("clf_proba", lambda ml=np.nan: SklearnClassifier(FailingClassifier(), classes=[0, 1, 2], random_state=0, missing_label=ml)),
+    "sk_nb": ("clf", lambda ml=np.nan: SklearnClassifier(GaussianNB(var_smoothing=1e-3), classes=[0, 1, 2], random_state=0, missing_label=ml)),
+    "sk_lr": ("clf", lambda ml=np.nan: SklearnClassifier(LogisticRegression(max_iter=300), classes=[0, 1, 2], random_state=0, missing_label=ml)),
+    "sk_tree": ("clf", lambda ml=np.nan: SklearnClassifier(DecisionTreeClassifier(random_state=0), classes=[0, 1, 2], random_state=0, missing_label=ml)),
+    "sk_knn": ("clf", lambda ml=np.nan: SklearnClassifier(KNeighborsClassifier(n_neighbors=1), classes=[0, 1, 2], random_state=0, missing_label=ml)),
+    "sk_sgd_warm": ("clf", lambda ml=np.nan: SklearnClassifier(SGDClassifier(loss="log_loss", warm_start=True, max_iter=30, tol=None, random_state=0),
+                                                    classes=[0, 1, 2], random_state=0, missing_label=ml)),
+    "sk_rf_warm": ("clf", lambda ml=np.nan: SklearnClassifier(RandomForestClassifier(n_estimators=3, warm_start=True, random_state=0),
+                                                   classes=[0, 1, 2], random_state=0, missing_label=ml)),
+    "sk_mlp_warm": ("clf", lambda ml=np.nan: SklearnClassifier(MLPClassifier(hidden_layer_sizes=(4,), warm_start=True, max_iter=40, random_state=0),
+                                                    classes=[0, 1, 2], random_state=0, missing_label=ml)),
+    "pwc": ("clf", lambda ml=np.nan: ParzenWindowClassifier(metric_dict={"gamma": 0.7}, classes=[0, 1, 2], random_state=0, missing_label=ml)),
+    "pwc_prior": ("clf", lambda ml=np.nan: ParzenWindowClassifier(metric_dict={"gamma": 0.2}, class_prior=[1, 2, 0.5], classes=[0, 1, 2], random_state=0, missing_label=ml)),
+    "skr_lin": ("reg", lambda ml=np.nan: SklearnRegressor(LinearRegression(), random_state=0, missing_label=ml)),
+    "skr_tree": ("reg", lambda ml=np.nan: SklearnRegressor(DecisionTreeRegressor(random_state=0), random_state=0, missing_label=ml)),
+    "skn_br": ("preg", lambda ml=np.nan: SklearnNormalRegressor(BayesianRidge(), random_state=0, missing_label=ml)),
+    "skn_gp": ("preg", lambda ml=np.nan: SklearnNormalRegressor(GaussianProcessRegressor(alpha=1e-3, random_state=0), random_state=0, missing_label=ml)),
+    "nic": ("preg", lambda ml=np.nan: NICKernelRegressor(metric_dict={"gamma": 0.5}, random_state=0, missing_label=ml)),
+    "nw": ("preg", lambda ml=np.nan: NadarayaWatsonRegressor(metric_dict={"gamma": 0.5}, random_state=0, missing_label=ml)),
+    "annot_lr": ("multi", lambda ml=np.nan: AnnotatorLogisticRegression(classes=[0, 1, 2], max_iter=40, random_state=0, missing_label=ml)),
+    # non-default annotator / weight priors: with them the scale of the sample weights no longer cancels
+    "annot_lr_prior": ("multi", lambda ml=np.nan: AnnotatorLogisticRegression(classes=[0, 1, 2], max_iter=40, annot_prior_full=2.0, annot_prior_diag=1.5,
+                                                                              weights_prior=0.5, random_state=0, missing_label=ml)),
 }
 
 
@@ -88,7 +91,7 @@ def gen_cases(tier, seed):
         for i in range(reps):
             s = stable_hash(seed, "C12", name, i)
             cases.append({"id": "%s-%04d" % (name, i), "learner": name, "seed": s, "weights": bool(i % 2),
-                          "frac": [0.0, 0.2, 0.5, 0.9][(i // 2) % 4]})
+                          "frac": [0.0, 0.2, 0.5, 0.9][(i // 2) % 4], "sentinel": ["nan", "number"][(i // 8 + s) % 2]})
     return cases
 
 
@@ -121,7 +124,13 @@ def run_case(desc):
     steps.install()
     rng = gen.rng_for("c12", desc["seed"])
     name = desc["learner"]
-    kind, make = LEARNERS[name]
+    kind, make0 = LEARNERS[name]
+    is_clf = kind in ("clf", "multi", "clf_proba")
+    # a reserved number as missing label: the sentinel values must not leak into any statistic of the labels
+    ml = np.nan if desc.get("sentinel", "nan") == "nan" else (-1.0 if is_clf else -7.5)
+
+    def make():
+        return make0(ml)
     n = int(rng.randint(4, 16))
     d = int(rng.randint(1, 4))
     X = np.round(rng.randn(n, d), 3)
@@ -144,6 +153,9 @@ def run_case(desc):
     else:
         y = np.where(lab, yt, np.nan)
         rowlab = lab
+    miss_entries = np.isnan(y)
+    if not np.isnan(ml):
+        y = np.where(miss_entries, ml, y)
     w = None
     if desc["weights"]:
         w = np.round(rng.rand(*y.shape) + 0.2, 2)
@@ -159,6 +171,10 @@ def run_case(desc):
             w3 = w.copy()
             w3[~rowlab] = rng.choice([np.nan, np.inf, 5.0], size=w3[~rowlab].shape)
             variants["weights-of-unlabelled-not-finite"] = (X, y, w3)
+    if w is not None and kind == "multi" and miss_entries.any():
+        w4 = w.copy()
+        w4[miss_entries] = rng.choice([0.0, 1e6, 3.0], size=int(miss_entries.sum()))
+        variants["weights-at-missing-entries-perturbed"] = (X, y, w4)
     # move unlabelled rows to other positions, labelled rows keep their relative order
     order_l = list(np.flatnonzero(rowlab))
     order_u = list(np.flatnonzero(~rowlab))
@@ -186,7 +202,7 @@ def run_case(desc):
             steps.end()
     if int(rowlab.sum()) >= 3 and kind != "multi":
         first = np.flatnonzero(rowlab)[rng.permutation(int(rowlab.sum()))[: int(rowlab.sum()) // 2]]
-        y_part = np.where(np.isin(np.arange(n), first), y, np.nan)
+        y_part = np.where(np.isin(np.arange(n), first), y, ml)
         est = make()
         steps.begin()
         try:
@@ -212,7 +228,7 @@ def run_case(desc):
     contracts.count("C12.paired-fit-oracle", len(variants))
     viol = []
     comp = type(make()).__name__ + ("(%s)" % type(make().estimator).__name__ if hasattr(make(), "estimator") else "")
-    ctx = "n=%d labelled=%d weights=%s" % (n, int(rowlab.sum()), desc["weights"])
+    ctx = "n=%d labelled=%d weights=%s missing_label=%r" % (n, int(rowlab.sum()), desc["weights"], ml)
     if errors and len(errors) < len(variants):
         viol.append({"component": comp, "kind": "fit-raises-in-one-variant-only", "trigger": "any",
                      "detail": "%s: %s; fine for %s" % (ctx, errors, sorted(results))})
